@@ -24,7 +24,8 @@ def run(chk):
     cm = CubeModel(facts)
     env = Env(facts)
     # real cubes over a two-variable window: ^ denotes XOR, ! the complement (analysis/window.py)
-    from ..window import window_op, op_forms, pick_forms
+    from ..window import window_op, op_forms, pick_forms, to_lut_rules
+    to_lut_rules(chk, "C15.T", facts, C, "xor", chk.tier)
     for trait, opname, shapes in (("std::ops::BitXor", "xor", ((1, 1), (2, 1), (1, 2), (0, 2), (2, 2))), ("std::ops::Not", "not", ((0,), (1,), (2,), (3,)))):
         for bd, label in pick_forms(op_forms(facts, trait, ESOP), chk.tier):
             for lens in shapes:
